@@ -713,15 +713,14 @@ func c05Reader(c *fw.Ctx, enumerate [][]byte) fw.Outcome {
 		if exp, have := stlExpectCues(model, ignore), stlProjectCues(got); !stlSameWithin1ns(exp, have) {
 			return fw.Bad(key, fmt.Sprintf("%x", doc), "STL reader (fps=%d dsc=%s ignoreTCP=%v tcp=%v): %s", model.G.FPS, model.G.DSC, ignore, model.G.TCP, firstDiff(exp, have))
 		}
-		if c.Idx%4 == 3 {
-			if _, plain := src.(*bytes.Reader); plain {
-				var opts *astisub.STLOptions
-				if ignore {
-					opts = &astisub.STLOptions{IgnoreTimecodeStartOfProgramme: true}
-				}
-				if msg := altEntryPoints(c, "stl", doc, got, opts); msg != "" {
-					return fw.Bad(key, fmt.Sprintf("%x", doc), "%s", msg)
-				}
+		if c.Idx%4 >= 2 {
+			// the same bytes through OpenFile (default options) and Open (with the option of this pass)
+			var opts *astisub.STLOptions
+			if ignore {
+				opts = &astisub.STLOptions{IgnoreTimecodeStartOfProgramme: true}
+			}
+			if msg := altEntryPoints(c, "stl", doc, got, opts); msg != "" {
+				return fw.Bad(key, fmt.Sprintf("%x", doc), "%s", msg)
 			}
 		}
 		// the vertical position is also handed on as a line percentage for the other formats: whatever the mapping,
